@@ -25,6 +25,7 @@ pub fn def() -> CheckDef {
         cpu_limit_s: 30,
         fault_kinds: "none (seam-level write counter for refused creations)",
         count_subruns: false,
+        expect_probes: &["node_with_two_siblings"],
     }
 }
 
